@@ -415,7 +415,7 @@ pub fn property() -> Property {
         id: "C20",
         run,
         budget: |t| match t {
-            Tier::Quick => 1500,
+            Tier::Quick => 3000,
             Tier::Thorough => 100_000,
         },
         wall_cap_s: |t| match t {
